@@ -159,7 +159,8 @@ def angle_points(ctx):
 
 
 @case("C09", "dist.3d.lattice", [], kind="bounded", functions=FUN + ["geometer.point.SubspaceTensor.basis_matrix", "geometer.utils.math.orth"],
-      bound="3D: all pairs of points of {-1,0,2}^3 (scaled representatives), 30 lattice planes x 27 points, parallel plane pairs and plane/parallel-line pairs from 12 normals")
+      bound="3D: pairs of points of {-1,0,2}^3 (scaled representatives), 36 lattice planes x 14 points, parallel plane pairs with rescaled/negated representatives; "
+            "3D angles for 21 direction pairs at 4 positions (three points, two lines) and two planes")
 def dist_3d_lattice(ctx):
     import geometer as g
     from geometer.operators import dist
@@ -182,11 +183,37 @@ def dist_3d_lattice(ctx):
                 d = dist(e, g.Point(*p))
                 ctx.ensure("plane-point", abs(d - want) < 1e-6, witness=dict(plane=n + (off,), p=p, got=float(d), want=want))
                 ctx.ensure("point-plane-symmetric", abs(dist(g.Point(*p), e) - want) < 1e-6, witness=dict(plane=n + (off,), p=p))
-            for off2 in (-1, 5):
+            for off2, sc2 in ((-1, 1), (5, 1), (-1, -2), (4, -1)):
                 try:
-                    d = dist(e, g.Plane(*n, off2))
+                    d = dist(e, g.Plane(*[x * sc2 for x in n], off2 * sc2))
                     ok = abs(d - abs(off - off2) / nn) < 1e-6
                     got = float(d)
                 except RecursionError:
                     ok, got = False, "RecursionError"
-                ctx.ensure("parallel-planes", ok, witness=dict(plane1=n + (off,), plane2=n + (off2,), got=got, want=abs(off - off2) / nn))
+                ctx.ensure("parallel-planes(any-representative)", ok, witness=dict(plane1=n + (off,), plane2=n + (off2,), scale2=sc2, got=got, want=abs(off - off2) / nn))
+    # angles in 3-space: three points / two lines / two planes, at several positions (translation invariance)
+    import math as _m
+    from geometer.operators import angle
+
+    def ang(u, v):
+        c = sum(a * b for a, b in zip(u, v)) / _m.sqrt(sum(a * a for a in u) * sum(b * b for b in v))
+        return _m.acos(max(-1.0, min(1.0, c)))
+
+    dirs = [(1, 0, 0), (0, 1, 0), (1, 1, 0), (1, 1, 1), (1, -2, 2), (0, 3, 4), (2, 1, -1)]
+    for u, v in itertools.combinations(dirs, 2):
+        want = ang(u, v)
+        for o in [(0, 0, 0), (3, -7, 2), (-4, 1, 9), (0, 0, 5)]:
+            a = g.Point(*o)
+            b = g.Point(*[x + y for x, y in zip(o, u)])
+            c = g.Point(*[x + y for x, y in zip(o, v)])
+            got = abs(float(angle(a, b, c)))
+            ok = min(abs(got - want), abs(got - (_m.pi - want))) < 1e-6
+            ctx.ensure("angle-3d:three-points(mod-pi,translation-invariant)", ok, witness=dict(vertex=o, u=u, v=v, got=got, want=want))
+            got = abs(float(angle(g.Line(a, b), g.Line(a, c))))
+            ok = min(abs(got - want), abs(got - (_m.pi - want))) < 1e-6
+            ctx.ensure("angle-3d:two-lines", ok, witness=dict(vertex=o, u=u, v=v, got=got, want=want))
+        e1 = g.Plane(*u, 1)
+        e2 = g.Plane(*v, -2)
+        got = abs(float(np.real(angle(e1, e2))))
+        ok = min(abs(got - want), abs(got - (_m.pi - want))) < 1e-6
+        ctx.ensure("angle-3d:two-planes", ok, witness=dict(n1=u, n2=v, got=got, want=want))
